@@ -32,18 +32,24 @@ TRUSTED_BASE = [
 ]
 
 FILES = ["vh_common_test.go", "vhgate_backend_test.go", "c16_workload_test.go"]
-HEADER = ("From Coq Require Import String List Bool.\nFrom P9V Require Import Locks.Sym Locks.LockCases.\nImport ListNotations.\nOpen Scope string_scope.\n")
+HEADER = ("From Coq Require Import String List Bool NArith.\nFrom P9V Require Import Locks.Sym Locks.LockCases.\nImport ListNotations.\nOpen Scope string_scope.\nOpen Scope N_scope.\n")
 
 
 def to_case(o):
     k = o["kind"]
     if k == "log":
-        evs = "; ".join("mkEv %s %d %s %s %s" % (coq_bool(e["enter"]), e["id"], coq_string(e["m"]), coq_string(e["node"]), coq_string(e.get("entry", "")))
+        ids = {}
+
+        def num(s):  # nodes (path#inode) are numbered from 1; 0 = none
+            if not s:
+                return 0
+            return ids.setdefault(s, len(ids) + 1)
+        evs = "; ".join("mkEv %s %d %s %d %d %d" % (coq_bool(e["enter"]), e["id"], coq_string(e["m"]), num(e["node"]), num(e.get("entry", "")), e["h"])
                         for e in o.get("events") or [])
         return "CLog [%s]" % evs
     if k == "iso":
         f = lambda l: "[" + "; ".join(str(max(0, x + 10)) for x in (l or [])) + "]"
-        return "CIso %d %s %s" % (o["client"], f(o.get("conc")), f(o.get("alone")))
+        return "CIso %d%%nat %s %s" % (o["client"], f(o.get("conc")), f(o.get("alone")))
     if k == "answered":
         return "CAnswered %d %d %s" % (o["issued"], o["answered"], coq_bool(o["shutdown"]))
     raise ValueError(k)
@@ -82,7 +88,8 @@ def first_overlap(o):
 def report(ctx, obs, P, tag=""):
     for o in P:
         if o["kind"] == "log":
-            ctx.violation("C16:overlap" + tag, "the overlap monitor saw a call enter while a conflicting call (documented classes) was in progress", first_overlap(o))
+            ctx.violation("C16:overlap" + tag + (":" + o["cfg"] if o.get("run") == -1 else ""),
+                          "the backend monitor saw a call enter while a conflicting call (documented classes) was in progress, or a call on a File whose Close had started (%s)" % o["cfg"], first_overlap(o))
         elif o["kind"] == "iso":
             ctx.violation("C16:isolation" + tag, "client %d (own fids, own subtree) got different replies concurrently than alone (%s)" % (o["client"], o["cfg"]), o)
         else:
@@ -90,7 +97,15 @@ def report(ctx, obs, P, tag=""):
 
 
 def run(ctx):
-    rc, out, obs = ctx.gotest("p9", "^TestVerifC16$", FILES, timeout=1500)
+    # one test binary for the workload and the targeted probes; the qids.Mapper test (other package) runs beside it
+    from concurrent.futures import ThreadPoolExecutor
+    with ThreadPoolExecutor(max_workers=2) as ex:
+        f1 = ex.submit(ctx.gotest, "p9", "^TestVerifC16(Stall|RenameDisconnect|Probes)?$", FILES, None, 1500)
+        f4 = ex.submit(ctx.gotest, "fsimpl/qids", "^TestVerifC16Mapper$", ["c16_mapper_test.go"], None, 300, ctx.thorough)
+        rc, out, allobs = f1.result()
+        rc4, out4, obs4 = f4.result()
+    obs = [o for o in allobs if o.get("kind") in ("log", "iso", "answered")]
+    obs3 = [o for o in allobs if o.get("kind") in ("stall", "renamedisc", "probe")]
     if rc != 0 or not obs:
         if "concurrent map" in out or "fatal error" in out:
             ctx.violation("C16:abort", "runtime abort in the concurrent workload", {"output": out[-3000:]})
@@ -99,20 +114,19 @@ def run(ctx):
             return
     P = evaluate(ctx, "C16_cases", obs)
     report(ctx, obs, P)
-    # targeted probes: a blocked backend Close must not stall the connection; the shared qids.Mapper under contention
-    rc3, out3, obs3 = ctx.gotest("p9", "^TestVerifC16(Stall|RenameDisconnect|Probes)$", FILES, timeout=300)
+    # targeted probes (blocked = not answered within 3 x 1.1 s, the only direction a timeout is used in)
     st = [o for o in obs3 if o.get("kind") == "stall"]
     rd = [o for o in obs3 if o.get("kind") == "renamedisc"]
+    pr = [o for o in obs3 if o.get("kind") == "probe"]
     if rd and not rd[0]["answered"]:
         ctx.violation("C16:deadlock:rename-disconnect", "Trenameat was never answered (server-wide deadlock under renameMu.W): " + rd[0]["what"], rd[0])
-    for o in [o for o in obs3 if o.get("kind") == "probe"]:
+    for o in pr:
         if not o["answered"]:
             ctx.violation("C16:deadlock:%s" % o["name"], "requests were never answered (3 x 1.1 s): " + o["what"], o)
-    if rc3 != 0 or not st or not rd:
-        ctx.harness_broken("harness TestVerifC16Stall/RenameDisconnect failed (rc=%d)" % rc3, out3)
-    elif not st[0]["answered"]:
+    if st and not st[0]["answered"]:
         ctx.violation("C16:stall", "a request on another fid was not answered (3 x 1.1 s) while the backend held the Close of a Tclunk on the same connection", st[0])
-    rc4, out4, obs4 = ctx.gotest("fsimpl/qids", "^TestVerifC16Mapper$", ["c16_mapper_test.go"], timeout=300, race=ctx.thorough)
+    if rc == 0 and (not st or not rd or len(pr) < 5):
+        ctx.harness_broken("targeted probes did not all report (stall=%d renamedisc=%d probes=%d)" % (len(st), len(rd), len(pr)), out)
     mp = [o for o in obs4 if o.get("kind") == "mapper"]
     if "concurrent map" in out4 or "DATA RACE" in out4 or (mp and not mp[0]["consistent"]):
         ctx.violation("C16:mapper", "qids.Mapper used from concurrent requests: runtime abort / data race / inconsistent QID paths", {"output": out4[:3000], "obs": mp})
